@@ -443,7 +443,14 @@ func (*Service) runJob(_ context.Context, job *job) error {
 	}
 	job.active.Store(true)
 	verifPoint(job, "RClaimed")
-	job.runCh <- struct{}{}
+	// The run channel holds at most one signal.  A signal that is still pending (sent by an earlier request
+	// whose instance of a periodic job was started by the timer instead) starts the job just as well, so do not
+	// wait for room in the channel: waiting here would be with the state lock held, and the job's goroutine
+	// needs that lock to finalise the job when its context is cancelled.
+	select {
+	case job.runCh <- struct{}{}:
+	default:
+	}
 	job.stateLock.Unlock()
 
 	return nil
